@@ -312,6 +312,9 @@ class Model(EconomicObject):
         :return: None
         """
         Logger('Registering global equation: {0} = {1}', priority=5, data_to_format=(var, eqn))
+        # A model-level variable is defined once: stating it again (two book model builders in one
+        # Model both add the decorated time axis 't') replaces the earlier definition.
+        self.GlobalVariables = [x for x in self.GlobalVariables if x[0] != var]
         self.GlobalVariables.append((var, eqn, description))
 
     def GetSectors(self):
